@@ -236,6 +236,10 @@ def lastEomPulseDrift (c : ChanState) : Drift :=
   let lastTf : Int := match c.lastPulseSlot true with | some (s, _) => s.tf | none => 0
   { rate := -detOff, ti := max bti lastTf }
 
+/-- `total_phase_shift` of `_add`: the post-phase-shift minus the drift correction. -/
+def totalShift (post : Rat) (drift : Option Drift) (ti : Int) : Rat :=
+  post - (match drift with | some d => d.calc ti | none => 0)
+
 /-- The common part of `Sequence._add` after the channel has been validated. -/
 def addCore (s : SeqState) (p : PulseIn) (n : ChName) (proto : Option Protocol)
     (drift : Option Drift) : Raw :=
@@ -264,7 +268,7 @@ def addCore (s : SeqState) (p : PulseIn) (n : ChName) (proto : Option Protocol)
   | .error e => fail s1 e
   | .ok newSlot =>
   let s2 := s1.mapRefs c.cfg.basis last.targets (·.updateLastUsed newSlot.tf)
-  let total : Rat := pr.post - (match drift with | some d => d.calc newSlot.ti | none => 0)
+  let total : Rat := totalShift pr.post drift newSlot.ti
   if total ≠ 0 then s2.phaseShift total last.targets c.cfg.basis else done s2
 
 /-- `estimate_added_delay` after channel validation. -/
@@ -293,8 +297,7 @@ def targetCore (s : SeqState) (qs : List Nat) (n : ChName) : Raw :=
   | .ok c =>
   if qs.isEmpty then fail s .emptyTargets
   else if !c.cfg.isLocal then fail s .notLocal
-  else if (match c.cfg.maxTargets with | some m => decide (qs.length > m) | none => false) then
-    fail s .tooManyTargets
+  else if overNat c.cfg.maxTargets qs.length then fail s .tooManyTargets
   else if qs.any (· ≥ s.nQ) then fail s .unknownQubit
   else if !allSame (s.lastPhases c.cfg.basis qs) then fail s .diffPhaseRefs
   else s.withChan n fun c => addTarget s.dev.maxSeqDur c qs
@@ -341,6 +344,11 @@ def markNonEmpty (r : Raw) : Raw :=
   match r.err with
   | none => { r with st := { r.st with empty := false } }
   | some _ => r
+
+/-- `basis in available` of `Sequence.measure`: the device's bases without XY outside XY
+mode, only XY in XY mode. -/
+def measBasisOk (s : SeqState) (b : Basis) : Bool :=
+  if s.inXY then b == .xy else (s.dev.chans.any (·.basis == b) && b != .xy)
 
 /-- One API call, in Python statement order. -/
 def stepRaw (s : SeqState) (op : Op) : Raw :=
@@ -494,9 +502,7 @@ def stepRaw (s : SeqState) (op : Op) : Raw :=
     store op <|
       if s.measured.isSome then fail s .measured
       else
-      let supported := s.dev.chans.any (·.basis == b)
-      let ok := if s.inXY then b == .xy else (supported && b != .xy)
-      if !ok then fail s .badMeasBasis else done { s with measured := some b }
+      if !measBasisOk s b then fail s .badMeasBasis else done { s with measured := some b }
   | .getDuration ch fall =>
     match ch with
     | some n =>
